@@ -665,7 +665,7 @@ func advanceDFA(state int, r rune) int {
 	case 53:
 		switch r {
 		case '\t', '\n', '\r',
-			' ', '!', '"', '#', '$', '%', '&', '\'', '(', ')', '*', '+', ',', '-', '.', /*/*/
+			' ', '!', '"', '#', '$', '%', '&', '\'', '(', ')' /***/, '+', ',', '-', '.', /*/*/
 			'0', '1', '2', '3', '4', '5', '6', '7', '8', '9',
 			':', ';', '<', '=', '>', '?', '@',
 			'A', 'B', 'C', 'D', 'E', 'F', 'G', 'H', 'I', 'J', 'K', 'L', 'M', 'N', 'O', 'P', 'Q', 'R', 'S', 'T', 'U', 'V', 'W', 'X', 'Y', 'Z',
@@ -673,6 +673,9 @@ func advanceDFA(state int, r rune) int {
 			'a', 'b', 'c', 'd', 'e', 'f', 'g', 'h', 'i', 'j', 'k', 'l', 'm', 'n', 'o', 'p', 'q', 'r', 's', 't', 'u', 'v', 'w', 'x', 'y', 'z',
 			'{', '|', '}', '~':
 			return 52
+
+		case '*':
+			return 53
 
 		case '/':
 			return 54
